@@ -50,7 +50,7 @@ def _sset(sub, desc):
 def run(ctx):
     ctx.functions += ['server.build_cnf', 'logic.to_cnf_tseitin', 'core.cnf.CNF.pop_count / adders / _make_same_length',
                       'constraint.*.apply', 'core.generate.utility.save_cnf', 'tools.unigen.parse_cnf_file']
-    ctx.bounds = {'designs': 'fixed corpus + 40 (thorough 400) seeded random descriptors; T <= 8 (12)',
+    ctx.bounds = {'designs': 'fixed corpus + 40 (thorough 1500) seeded random descriptors; T <= 8 (12)',
                   'models': 'all pairs of models of the complete formula (solver verdict)'}
     ctx.outside += ['designs outside the generator space']
     ctx.assumptions += ['CryptoMiniSat sound', 'trial variables are 1..variables_per_sample() (checked by C14)']
@@ -64,7 +64,7 @@ def run(ctx):
     freed = [c for c in comp.clauses if all(abs(l) != victim for l in c)] + [[victim, -victim]]
     if uniqueness_query(freed, comp.support, ctx) is None:
         raise HarnessError('vacuity: uniqueness query does not see a freed auxiliary')
-    items = design_items(ctx, ('unique',))
+    items = design_items(ctx, ('unique',), n=1500 if ctx.tier == 'thorough' else None)
     res = pmap(ctx, check_design, items)
     ctx.extra['design_outcomes'] = {k: res.count(k) for k in set(res)}
     pmap(ctx, _sset, [d for (d, _), r in zip(items, res) if r in ('ok', 'errors')])
